@@ -68,6 +68,27 @@ pub fn stream_menu() -> Vec<SMenu> {
         }),
         plain: text.clone(),
     });
+    // IDAT-total edge: streams of exactly 1001 / 1002 / 1003 bytes with > 1024 bytes of plaintext, so that
+    // one IDAT chunk (stream + 2 + 4 + 12) totals 1019, 1020, 1021 ... see wrapper "png pad" below; here:
+    // stored noise + a run, stream length tuned to make a single-chunk IDAT total 1024, 1025 and 1026
+    for total in [1024usize, 1025, 1026] {
+        // single chunk total = stream + 18; stream = 5 (stored header) + n + fixed block of a run (6 bytes)
+        let want = total - 18;
+        let mut n = want - 5 - 6;
+        loop {
+            let noise = text_family(4, n);
+            let run = vec![Tok::Lit(b'r'), r(40, 1)];
+            let st = serialise(&Stream { blocks: vec![Block::Stored { data: noise.clone(), pad: 0 }, Block::Fixed { toks: run.clone() }], final_pad: 0 });
+            if st.len() == want {
+                let mut p = noise;
+                apply_tokens(&mut p, &run);
+                assert!(p.len() > 1024);
+                v.push(SMenu { name: match total { 1024 => "idat-total-1024", 1025 => "idat-total-1025", _ => "idat-total-1026" }, stream: st, plain: p });
+                break;
+            }
+            if st.len() > want { n -= 1 } else { n += 1 }
+        }
+    }
     // 8.. real compressors on a 2 KiB text
     let t2 = text_family(1, 2048);
     for (name, c) in [
